@@ -24,6 +24,6 @@ For each change write, under {wt}/_out/<n>/ (n = 1, 2):
   - patch.diff : `git diff` of the change against the worktree's HEAD (only the source change, no tests),
   - demo.py    : a small self-contained program (run as `cd {wt} && /venv/bin/python _out/<n>/demo.py`; IMPORTANT: start demo.py with `import os, sys; sys.path.insert(0, os.getcwd())` so that it imports the packages of the tree it is started in, not the installed copy) that exits 0 on the clean tree and exits non-zero (with a message saying what is wrong) when the change is applied. It must demonstrate the violation through the project's public behaviour (CLI mains / library API / produced files), not by inspecting the source,
   - meta.json  : {{"property": "{pid}", "summary": "...what was changed...", "needs": "...what specific input/sequence/configuration is needed for it to manifest...", "files": [...]}}.
-After producing each patch, verify yourself: demo fails with the patch, passes without it (use `git stash` / `git apply -R`), and the test-suite result is unchanged. Leave the worktree CLEAN (no applied change) at the end, with only the _out directory added. Keep everything else (scratch files) inside {wt} and delete them when done.
+After producing each patch, verify yourself: demo fails with the patch, passes without it (use `git apply -R` or `git checkout -- .`; do NOT use `git stash`, it is shared between all worktrees of the repository), and the test-suite result is unchanged. Leave the worktree CLEAN (no applied change) at the end, with only the _out directory added. Keep everything else (scratch files) inside {wt} and delete them when done.
 
 Finish with a short report: for each change one paragraph (what, where, what it needs to manifest, how you verified).""")
